@@ -31,17 +31,23 @@ use undermoon::common::config::ClusterConfig;
 // virtual wall clock (hook H3) and injected proxy epoch (hook H7)
 
 pub static CLOCK_SECS: AtomicI64 = AtomicI64::new(1_700_000_000);
+/// sub-second part of the virtual wall clock in ms (may exceed 999; the clock is CLOCK_SECS*1000 + CLOCK_SUB_MS):
+/// report times are stored floored to whole seconds by the broker, so ttl boundaries need a finer clock
+pub static CLOCK_SUB_MS: AtomicI64 = AtomicI64::new(0);
+pub fn clock_ms() -> i64 {
+    CLOCK_SECS.load(Ordering::SeqCst) * 1000 + CLOCK_SUB_MS.load(Ordering::SeqCst)
+}
 pub static INJECTED_MAX_EPOCH: AtomicU64 = AtomicU64::new(u64::MAX);
 
 /// when set, the broker's wall clock follows the simulated (tokio, paused) clock
 pub static SIM_CLOCK_START: parking_lot::Mutex<Option<tokio::time::Instant>> = parking_lot::Mutex::new(None);
 
 fn sim_utc_now() -> DateTime<Utc> {
-    let mut s = CLOCK_SECS.load(Ordering::SeqCst);
+    let mut ms = clock_ms();
     if let Some(t0) = *SIM_CLOCK_START.lock() {
-        s += tokio::time::Instant::now().duration_since(t0).as_secs() as i64;
+        ms += tokio::time::Instant::now().duration_since(t0).as_secs() as i64 * 1000;
     }
-    DateTime::<Utc>::from_utc(NaiveDateTime::from_timestamp(s, 0), Utc)
+    DateTime::<Utc>::from_utc(NaiveDateTime::from_timestamp(ms.div_euclid(1000), (ms.rem_euclid(1000) * 1_000_000) as u32), Utc)
 }
 fn sim_max_epoch() -> Option<u64> {
     let v = INJECTED_MAX_EPOCH.load(Ordering::SeqCst);
@@ -122,7 +128,11 @@ pub enum Op {
     Balance { c: usize },
     Config { c: usize, k: u8, v: u8 },
     Bump { delta: u64 },
-    Clock { secs: i64 },
+    Clock {
+        secs: i64,
+        #[serde(default)]
+        ms: i64,
+    },
     /// C10: commit visible migrations in random order (with interleavings) until none is left
     Drain { c: usize, seed: u64, chaos: u8 },
     /// C10: resize to `chunks` chunks (up or down), as the two-phase API does
@@ -861,7 +871,7 @@ impl World {
                     proxy_addr(h, i)
                 };
                 let reporter = format!("r{}", r);
-                let now = CLOCK_SECS.load(Ordering::SeqCst);
+                let now = clock_ms();
                 let _ = block_on(self.svc.add_failure(addr.clone(), reporter.clone()));
                 self.reports.entry(addr).or_default().insert(reporter, now);
                 self.rec.fault("failure_report");
@@ -914,8 +924,9 @@ impl World {
                 let g = self.store().get_global_epoch();
                 let _ = block_on(self.svc.force_bump_all_epoch(g + *delta));
             }
-            Op::Clock { secs } => {
+            Op::Clock { secs, ms } => {
                 CLOCK_SECS.fetch_add(*secs, Ordering::SeqCst);
+                CLOCK_SUB_MS.fetch_add(*ms, Ordering::SeqCst);
                 self.rec.fault("clock_jump");
             }
             Op::Drain { c, seed, chaos } => {
@@ -1027,10 +1038,12 @@ impl World {
     }
 
     fn do_get_failures(&mut self, opdesc: &str) {
-        let now = CLOCK_SECS.load(Ordering::SeqCst);
+        // millisecond clock: a report counts as fresh when its true age (not the age of its floored
+        // timestamp) is at most the ttl; the broker's own test `now - floor(t) < ttl` implies that
+        let now = clock_ms();
         let st = self.store();
         let got = block_on(self.svc.get_failures()).unwrap_or_default();
-        let ttl = self.cfg.ttl as i64;
+        let ttl = self.cfg.ttl as i64 * 1000;
         for a in got.iter() {
             self.rec.probe("failure_listed");
             if !st.all_proxies.contains_key(a) {
@@ -1443,7 +1456,7 @@ fn gen_history(rng: &mut Rng, cfg: &Cfg, n_ops: usize) -> Vec<Op> {
             88..=91 => Op::Balance { c },
             92..=95 => Op::Config { c, k: rng.below(15) as u8, v: rng.below(8) as u8 },
             96 => Op::Bump { delta: rng.range(0, 5) },
-            _ => Op::Clock { secs: *rng.pick(&[1i64, 2, 3, 30, 59, 60, 61, 120]) },
+            _ => Op::Clock { secs: *rng.pick(&[1i64, 2, 3, 30, 59, 60, 61, 120]), ms: 0 },
         };
         // bias: after a scaling request, continue with partial commits
         let burst = matches!(op, Op::Migrate { .. } | Op::ScaleDown { .. });
@@ -1473,7 +1486,7 @@ fn gen_failure_history(rng: &mut Rng, cfg: &Cfg, n_ops: usize) -> Vec<Op> {
         let op = match r {
             0..=44 => Op::Report { pick: rng.below(4), r: rng.below(5) as u8, unknown: rng.chance(1, 8) },
             45..=64 => Op::GetFailures,
-            65..=79 => Op::Clock { secs: (*rng.pick(&[0i64, 1, 1, ttl - 1, ttl, ttl + 1, 2 * ttl, ttl / 2])).max(0) },
+            65..=79 => Op::Clock { secs: (*rng.pick(&[0i64, 1, 1, ttl - 1, ttl, ttl + 1, 2 * ttl, ttl / 2])).max(0), ms: *rng.pick(&[0i64, 0, 100, 400, 500, 900, 999]) },
             80..=87 => {
                 let (h, i) = *rng.pick(&uni);
                 Op::AddProxy { h, i }
@@ -1572,6 +1585,7 @@ impl Check for BrokerCheck {
     fn execute(&self, plan: &Value, want_sample: bool) -> RunRecord {
         install_hooks();
         CLOCK_SECS.store(1_700_000_000, Ordering::SeqCst);
+        CLOCK_SUB_MS.store(0, Ordering::SeqCst);
         let cfg: Cfg = serde_json::from_value(plan["cfg"].clone()).expect("cfg");
         let ops: Vec<Op> = serde_json::from_value(plan["ops"].clone()).expect("ops");
         let seed = plan["seed"].as_u64().unwrap_or(0);
@@ -1640,7 +1654,7 @@ impl Check for BrokerCheck {
             "C06" => "same histories; non-trivial = >=1 failover of an in-cluster proxy with a healthy partner was diffed; distinct = distinct (end-state hash, op-kind sequence hash).",
             "C10" => "plan = scaling chain: 2-5 resize rounds between 1 and 6 chunks, each drained by committing served tasks in random order with failover/balance/refused-request chaos; non-trivial = >=1 round drained to completion and checked; distinct by (end-state, op-kind sequence).",
             "C13" => "plan = history of 8-40 ops; EVERY prefix is a crash point: restart real MemBrokerService from that snapshot, inject a sampled distribution of installed proxy epochs, run recover_epoch, check all served views; non-trivial = >=1 crash point exercised.",
-            "C18" => "plan = 10-60 report/query/clock/registration ops, 5 reporters, quorum 1-4, ttl 2 or 60 s on the virtual clock; non-trivial = get_failures listed >=1 proxy.",
+            "C18" => "plan = 10-60 report/query/clock/registration ops, 5 reporters, quorum 1-4, ttl 2 or 60 s on the virtual clock (millisecond resolution: jumps of whole seconds plus 0-999 ms, so that queries land inside the second after a report's ttl); non-trivial = get_failures listed >=1 proxy.",
             _ => "",
         };
         Meta {
